@@ -122,6 +122,8 @@ type Link struct {
 	blockSend bool
 	sendCost  time.Duration
 	t0        time.Time
+	spinAt    time.Time
+	spinN     int
 
 	// OnSend, if set, is called synchronously from Send (in the sender's
 	// goroutine) before the packet is queued.
@@ -241,6 +243,16 @@ func (l *Link) Send(ctx context.Context, b []byte) error {
 	idx := l.sendIdx
 	l.sendIdx++
 	l.nSent++
+	// A sender that puts hundreds of thousands of packets on the wire at one
+	// and the same (virtual) instant is spinning: report it instead of
+	// filling the memory with its packets.
+	if now := time.Now(); now.Equal(l.spinAt) {
+		if l.spinN++; l.spinN > 300000 {
+			panic(fmt.Sprintf("livelock: %d packets sent on link %s at one virtual instant; last: %s", l.spinN, l.Name, Parse(b).String()))
+		}
+	} else {
+		l.spinAt, l.spinN = now, 0
+	}
 	p := Parse(b)
 	onSend := l.OnSend
 	cost := l.sendCost
